@@ -9,6 +9,7 @@ import (
 	"crypto/sha256"
 	"encoding/json"
 	"fmt"
+	"io"
 	"os"
 	"os/exec"
 	"path/filepath"
@@ -316,7 +317,8 @@ func runParent(id, tier string) int {
 				cmd := exec.Command(bin, "worker", id, tier, strconv.Itoa(r.lo), strconv.Itoa(r.hi), out)
 				cmd.Stdout = os.Stderr
 				var errBuf bytes.Buffer
-				cmd.Stderr = os.Stderr
+				tail := &tailWriter{max: 16 << 10}
+				cmd.Stderr = io.MultiWriter(os.Stderr, tail)
 				cmd.Env = append(os.Environ(), "GOMAXPROCS=2", fmt.Sprintf("VERIF_DEADLINE_UNIXMS=%d", deadline.UnixMilli()))
 				if scs[r.lo].Flavour == "race" {
 					// the race detector is the oracle: stop at the first report, which is then
@@ -345,6 +347,20 @@ func runParent(id, tier string) int {
 				os.Remove(out)
 				mu.Lock()
 				if rerr != nil || (err != nil && wo.Hang == "") {
+					if ee, ok := err.(*exec.ExitError); ok && ee.ExitCode() != 2 && strings.Contains(tail.String(), "fatal error:") {
+						// the worker process died of an unrecoverable runtime error (stack overflow,
+						// out of memory, concurrent map access ...) while executing the code under
+						// test: that is a finding, attributed to the scenarios of the chunk
+						msg := tail.String()
+						if i := strings.Index(msg, "fatal error:"); i >= 0 {
+							msg = msg[i:]
+						}
+						first := strings.SplitN(msg, "\n", 2)[0]
+						merged.Failures = append(merged.Failures, &explore.Failure{Key: id + ":crash:" + first, Msg: fmt.Sprintf("worker process died while exploring scenarios %d..%d (%s ...): %s", r.lo, r.hi-1, scs[r.lo].Name, first), Scenario: scs[r.lo].Name, Stack: msg})
+						merged.Scenarios += r.hi - r.lo
+						mu.Unlock()
+						continue
+					}
 					fmt.Fprintf(os.Stderr, "INFRA: worker for scenarios %d..%d failed: %v / %v\n", r.lo, r.hi, err, rerr)
 					infra = true
 					mu.Unlock()
@@ -484,6 +500,29 @@ func runParent(id, tier string) int {
 		return 1
 	}
 	return 0
+}
+
+// tailWriter keeps the last max bytes written to it.
+type tailWriter struct {
+	mu  sync.Mutex
+	buf []byte
+	max int
+}
+
+func (t *tailWriter) Write(p []byte) (int, error) {
+	t.mu.Lock()
+	defer t.mu.Unlock()
+	t.buf = append(t.buf, p...)
+	if len(t.buf) > t.max {
+		t.buf = t.buf[len(t.buf)-t.max:]
+	}
+	return len(p), nil
+}
+
+func (t *tailWriter) String() string {
+	t.mu.Lock()
+	defer t.mu.Unlock()
+	return string(t.buf)
 }
 
 // raceSite extracts the first two frames of the package under test from a race report.
